@@ -4,8 +4,12 @@ PROPS = {
         "units": ["codec"],
         "level": "proof",
         "clause": "ID window/rebase codec (IdWindow::encode/count, IdRebase::decode, encode_sentinel/decode_sentinel) is a bijection between a "
-                  "file's ID window and the reserved range, order preserving, sentinel-safe, and refuses every id outside the window at capture time.",
-        "assumptions": ["not covered: non-ID analyzer state, that every ID-bearing field is serialised through these impls (serde derive), thread-local session plumbing"],
+                  "file's ID window and the reserved range, order preserving, sentinel-safe, and refuses every id outside the window at capture time. "
+                  "Interned ids (StrId): EncodeSession::encode_str keeps the dictionary invariant (every cached id points at its own text, earlier entries untouched, unknown id refused and "
+                  "nothing stored), DecodeSession::decode_str is exactly the index lookup, and an encoded id decodes to an id with the same text (lemma_str_roundtrip) (Verus, unbounded).",
+        "assumptions": ["not covered: non-ID analyzer state, that every ID-bearing field is serialised through these impls (serde derive), thread-local session plumbing, "
+                        "encode_path/decode_path (same shape as the str pair; PathBuf is opaque to Verus), DecodeSession::new (iterator adapters)",
+                        "assumed: resource_table::get_str_value / insert_str behave as an interning table (str_value uninterpreted), StrId hashing obeys vstd's key model"],
     },
     "C12": {
         "units": ["tokpos"],
